@@ -6,8 +6,14 @@ import json, os, shutil, subprocess, sys
 V = os.path.dirname(os.path.dirname(os.path.abspath(__file__)))
 PY = "/venv/bin/python"
 BASE_FAIL = {"test_conform", "test_conform_2", "test_display", "test_display_more", "test_doc", "test_doc2", "test_method_doc"}
-for cid in sys.argv[1:]:
-    d = f"/tmp/seed/{cid.lower()}"
+args = sys.argv[1:]
+BASE, SUFFIX = "/tmp/seed", ""
+if args and args[0] == "--dir":
+    BASE, args = args[1], args[2:]
+if args and args[0] == "--suffix":
+    SUFFIX, args = args[1], args[2:]
+for cid in args:
+    d = f"{BASE}/{cid.lower()}"
     pid = cid.upper()
     out = {"property": pid}
     patch = os.path.join(d, "patch.diff")
@@ -25,7 +31,7 @@ for cid in sys.argv[1:]:
     out["demo_unchanged_rc"] = r0.returncode
     ok = ("143 passed" in tail) and r1.returncode != 0 and r0.returncode == 0
     out["verified"] = ok
-    dest = os.path.join(V, "seeded", pid)
+    dest = os.path.join(V, "seeded", pid + SUFFIX)
     os.makedirs(dest, exist_ok=True)
     for f in ("patch.diff", "demo.py"):
         shutil.copy(os.path.join(d, f), os.path.join(dest, f))
@@ -40,7 +46,7 @@ for cid in sys.argv[1:]:
     last = r.stdout.strip().splitlines()[-1][:200] if r.stdout.strip() else r.stderr[-200:]
     meta.update(dict(property=pid, confirmed=out, ran=[f"PYTHONPATH=<worktree>/src {PY} -m pytest tests  -> {tail}",
                                                         f"demo.py with change rc={r1.returncode}, on /repo rc={r0.returncode}",
-                                                        f"tools/with_patch seeded/{pid}/patch.diff ./check {pid} -> rc={r.returncode}: {last}"],
+                                                        f"tools/with_patch seeded/{pid}{SUFFIX}/patch.diff ./check {pid} -> rc={r.returncode}: {last}"],
                      caught_by_quick_check=caught))
     json.dump(meta, open(os.path.join(dest, "meta.json"), "w"), indent=1)
     print(pid, "verified" if ok else "NOT-VERIFIED", "CAUGHT" if caught else "MISSED", f"rc={r.returncode}", "|", last[:150])
